@@ -161,6 +161,9 @@ type Engine struct {
 	mainRetrying bool
 	inRunCoros   bool
 	lastFired    int
+	CoroRot      int // go_policy coro: the round-robin order is rotated by a shape in 0..CoroRot
+	rot          int
+	rotAsked     bool
 	SwitchHook   string // harness function called with the root goroutine index (-1: harness) whenever another party gets to run
 	race         *raceState
 	inAtomicAcc  bool
